@@ -18,6 +18,14 @@
    MultiMap copy operations, Array::append/resize copying the argument before the storage is
    replaced, List::insert(pos, list) copying the list when it is the list itself,
    Array::append(const T*, usize) re-basing a pointer into its own storage after reserve()).
+
+   Third round: the (capacity) constructors, find, PoolList::append(a1..an) (in-place
+   construction, event EMake), Array::append(const T*, n) from elements outside every container,
+   Map/MultiMap::insert(position, key, value) with its position hint (decision by decision, incl.
+   the branch that assigns to the hinted element), Map::insert(const Map&) through that hinted
+   insert, and List::sort - the in-place quicksort of the code as it is now, working on the
+   sequence of items of a segment: elements are exchanged by `T tmp = a; a = b; b = tmp;`
+   (copy-construct, two assignments, destroy), nodes never move.
    No proofs in this file. *)
 From Coq Require Import ZArith List Bool Arith.
 From Life Require Import LifeSpec.
@@ -45,6 +53,8 @@ Inductive event :=
 | EDef (i : id)                (* T()            *)
 | EVal (i : id) (v : Z)        (* T(int)         *)
 | ECopy (i s : id)             (* T(const T& s)  *)
+| EMake (i : id) (v : Z) (srcs : list id)
+                               (* T(a1, ..., an): reads the instances srcs, payload v *)
 | EAssign (d s : id)           (* d = s          *)
 | EDestroy (i : id)            (* ~T()           *)
 | EAlloc (b : blk)             (* new char[...]  *)
@@ -153,6 +163,8 @@ Fixpoint def_list (n : nat) : M (list id) :=
   match n with O => ret [] | S n' => i <- mk_def ;; r <- def_list n' ;; ret (i :: r) end.
 Fixpoint bfree_list (l : list blk) : M unit :=
   match l with [] => ret tt | b :: r => bfree b ;;; bfree_list r end.
+Fixpoint mk_vals (zs : list Z) : M (list id) :=
+  match zs with [] => ret [] | z :: r => i <- mk_val z ;; l <- mk_vals r ;; ret (i :: l) end.
 
 (* ---------------------------------------------------------------------------------------- *)
 (* Array<T>                                                                                   *)
@@ -257,6 +269,23 @@ Definition arr_append_range (a : arr) (o : option arr) (i n : nat) : M arr :=
   a1 <- arr_reserve a (length (aelems a) + n) ;;
   l <- copy_list (firstn n (skipn i (aelems (match o with Some y => y | None => a1 end)))) ;;
   ret (set_elems a1 (aelems a1 ++ l)).
+
+(* explicit Array(usize capacity) : _capacity(capacity) - no storage yet *)
+Definition arr_new_cap (n : nat) : arr := mkA n None [].
+
+(* Iterator find(const T& value) const: compares, changes nothing *)
+Definition arr_find (a : arr) (r : id) : M arr :=
+  _ <- rd r ;; _ <- rd_list (aelems a) ;; ret a.
+
+(* void append(const T* values, usize size) with values outside this array: the else branch *)
+Definition arr_append_ids (a : arr) (srcs : list id) : M arr :=
+  a1 <- arr_reserve a (length (aelems a) + length srcs) ;;
+  l <- copy_list srcs ;;
+  ret (set_elems a1 (aelems a1 ++ l)).
+(* the caller's buffer `T buf[n]` lives around the call: constructed in index order, destroyed in
+   reverse order *)
+Definition arr_append_vals (a : arr) (zs : list Z) : M arr :=
+  ts <- mk_vals zs ;; a' <- arr_append_ids a ts ;; destroy_list (rev ts) ;;; ret a'.
 
 (* ---------------------------------------------------------------------------------------- *)
 (* node containers: List, Map, MultiMap, HashMap, HashSet, PoolList, PoolMap                  *)
@@ -421,6 +450,144 @@ Definition nc_swap (a b : nc) : nc * nc :=
   (mkC (ckind a) (csent a) (citems b) (cfree b) (cblks b) (ctable b),
    mkC (ckind b) (csent b) (citems a) (cfree a) (cblks a) (ctable a)).
 
+(* find(const T& key) const / List::find(const T& value) const *)
+Definition nc_find (c : nc) (kr : id) : M nc :=
+  _ <- rd kr ;; _ <- rd_list (sel_ids (ckind c) (citems c)) ;; ret c.
+
+(* ---- Map / MultiMap: insert(const Iterator& position, const T& key, const V& value) ----
+   h is the index of the item `position` points at (h = size: position == end()).  `root` is
+   insert(&root, 0, key, value); `local j` is insert(&cell, parent, key, value) started at a child
+   cell of the hinted item (or of the last item): the comparisons made before it guarantee - for a
+   sorted item chain, and outside the MultiMap case singled out by hint_tie - that the descent
+   ends in an empty cell and that the new item is linked at index j. *)
+Definition nc_insert_hint (c : nc) (p : pos) (kr vr : id) : M nc :=
+  let k := ckind c in
+  kz <- rd kr ;;
+  keys <- rd_list (sel_ids k (citems c)) ;;
+  let h := pos_idx p (length (citems c)) in
+  let root := nc_insert c PBack kr (VRef vr) in
+  let local (j : nat) := nc_fresh c j kr (VRef vr) in
+  match nth_error keys h with
+  | None =>                                  (* insertPos == &endItem *)
+      match h with
+      | O => root                            (* prev == 0 *)
+      | S h' => match nth_error keys h' with
+                | Some pk => if Z.ltb pk kz then local h else root      (* key > prev->key *)
+                | None => root
+                end
+      end
+  | Some hk =>
+      if Z.ltb kz hk then                    (* key < insertPos->key *)
+        match h with
+        | O => local h                       (* !prev *)
+        | S h' => match nth_error keys h' with
+                  | Some pk => if (if unique k then Z.ltb pk kz else Z.leb pk kz) then local h else root
+                  | None => root
+                  end
+        end
+      else if (if unique k then Z.ltb hk kz else true) then   (* Map: key > insertPos->key; MultiMap: else *)
+        match nth_error keys (S h) with
+        | None => local (S h)                (* next == &endItem *)
+        | Some nk => if (if unique k then Z.ltb kz nk else Z.leb kz nk) then local (S h) else root
+        end
+      else                                   (* Map, equal keys: insertPos->value = value; *)
+        match nth_error (citems c) h with
+        | Some n => assign (nv n) vr ;;; ret c
+        | None => ret c
+        end
+  end.
+
+(* Map::insert(const Map& other): the first item by insert(&root, 0, ...), every further item by
+   the hinted insert, the hint being the iterator the previous insertion returned - the item that
+   carries the previous key (pk: that key in `other`).  Its index is looked up by value. *)
+Fixpoint nc_insert_all_map (c : nc) (prev : option id) (src : list node) : M nc :=
+  match src with
+  | [] => ret c
+  | n :: r =>
+      c1 <- (match prev with
+             | None => nc_insert c PBack (nk n) (VRef (nv n))
+             | Some pk =>
+                 pz <- rd pk ;;
+                 keys <- rd_list (sel_ids (ckind c) (citems c)) ;;
+                 nc_insert_hint c (match find_idx pz keys with Some j => PAt j | None => PBack end) (nk n) (nv n)
+             end) ;;
+      nc_insert_all_map c1 (Some (nk n)) r
+  end.
+
+(* o = None: other is this map itself *)
+Definition nc_add_all_map (c : nc) (o : option nc) : M nc :=
+  nc_insert_all_map c None (citems (match o with Some y => y | None => c end)).
+
+(* ---- PoolList::append(a1, ..., an) ---- *)
+(* what an argument refers to: a temporary the caller constructs from an integer, an existing
+   instance, or a by-value parameter that the caller copy-constructs from an existing instance *)
+Inductive rarg := RTmp (z : Z) | RRef (i : id) | RCopy (i : id).
+
+(* the constructor T(a1, ..., an) reads its arguments in order: integers are passed as such,
+   references are read through *)
+Fixpoint rd_args (rs : list rarg) : M (list Z) :=
+  match rs with
+  | [] => ret []
+  | RTmp z :: r => vs <- rd_args r ;; ret (z :: vs)
+  | RRef i :: r | RCopy i :: r => v <- rd i ;; vs <- rd_args r ;; ret (v :: vs)
+  end.
+Definition ref_ids (rs : list rarg) : list id :=
+  flat_map (fun r => match r with RTmp _ => [] | RRef i | RCopy i => [i] end) rs.
+(* allocateFreeItem(); new (item) T(args...); linkFreeItem() *)
+Definition nc_emplace (c : nc) (rs : list rarg) : M nc :=
+  c1 <- nc_alloc_item c ;;
+  i <- (match rs with
+        | [] => mk_def
+        | _ => vs <- rd_args rs ;; mk (zsum vs) (fun i => EMake i (zsum vs) (ref_ids rs))
+        end) ;;
+  ret (set_items c1 (citems c1 ++ [mkN 0 i]) (cfree c1)).
+
+(* ---- List::sort() ----
+   QuickSort::swap(a, b): T tmp = a->value; a->value = b->value; b->value = tmp; and tmp dies *)
+Definition swap_vals (a b : id) : M unit :=
+  t <- mk_copy a ;; assign a b ;;; assign b t ;;; destroy t.
+
+(* the partition loop of QuickSort::sort(left, right).  pv: the pivot `left->value`; S: the items
+   left+1 .. ptr1 (values less than the pivot), G: the items ptr1+1 .. ptr2, rest: ptr2+1 .. right *)
+Fixpoint qpart (pv : id) (Ls Gs rest : list id) : M (list id * list id) :=
+  match rest with
+  | [] => ret (Ls, Gs)
+  | x :: r =>
+      vx <- rd x ;; vp <- rd pv ;;
+      if Z.ltb vx vp then                     (* ptr0 = ptr1; ptr1 = ptr1->next; swap(ptr1, ptr2); ++less *)
+        match Gs with
+        | [] => swap_vals x x ;;; qpart pv (Ls ++ [x]) [] r            (* ptr1 == ptr2 *)
+        | g :: G' => swap_vals g x ;;; qpart pv (Ls ++ [g]) (G' ++ [x]) r
+        end
+      else qpart pv Ls (Gs ++ [x]) r            (* ++other *)
+  end.
+
+(* QuickSort::sort(left, right) on the items seg = left .. right (at least two).  After the loop:
+   swap(left, ptr1); the items left .. ptr0 hold the values less than the pivot, ptr1 the pivot,
+   the items behind it the others.  Parts of fewer than two items are not sorted; the shorter side
+   first (by recursion), then the longer one (by the enclosing for(;;)). *)
+Fixpoint qsort (fuel : nat) (seg : list id) : M unit :=
+  match fuel with
+  | O => ret tt
+  | S f =>
+      match seg with
+      | [] => ret tt
+      | lft :: rest =>
+          sg <- qpart lft [] [] rest ;;
+          let (Ls, Gs) := sg in
+          swap_vals lft (last Ls lft) ;;;
+          let L := match Ls with [] => [] | _ => lft :: removelast Ls end in
+          let sortL := if 2 <=? length L then qsort f L else ret tt in
+          let sortG := if 2 <=? length Gs then qsort f Gs else ret tt in
+          if length Ls <? length Gs then sortL ;;; sortG else sortG ;;; sortL
+      end
+  end.
+
+Definition nc_sort (c : nc) : M nc :=
+  let ids := map nv (citems c) in
+  (* if(endItem.prev == 0 || _begin.item == endItem.prev) return; *)
+  if 2 <=? length ids then qsort (length ids) ids ;;; ret c else ret c.
+
 (* ---------------------------------------------------------------------------------------- *)
 (* the program state: container variables                                                     *)
 (* ---------------------------------------------------------------------------------------- *)
@@ -434,10 +601,6 @@ Definition getv (vs : list (option cont)) (x : nat) : option cont :=
 Definition isdead (vs : list (option cont)) (x : nat) : bool :=
   match nth_error vs x with Some None => true | _ => false end.
 Definition kind_of (c : cont) : kind := match c with CA _ => KArray | CN n => ckind n end.
-
-(* what an argument refers to: a temporary the caller constructs from an integer, an existing
-   instance, or a by-value parameter that the caller copy-constructs from an existing instance *)
-Inductive rarg := RTmp (z : Z) | RRef (i : id) | RCopy (i : id).
 
 Definition marg_key (vs : list (option cont)) (a : arg) : option rarg :=
   match a with
@@ -461,6 +624,15 @@ Definition marg_val (vs : list (option cont)) (a : arg) : option rarg :=
                   | None => None
                   end
   | AKey _ _ => None
+  end.
+
+Fixpoint marg_vals (vs : list (option cont)) (args : list arg) : option (list rarg) :=
+  match args with
+  | [] => Some []
+  | a :: r => match marg_val vs a, marg_vals vs r with
+              | Some x, Some xs => Some (x :: xs)
+              | _, _ => None
+              end
   end.
 
 (* the caller's temporary lives around the call: `Tracked t(z); f(t);` *)
@@ -506,6 +678,11 @@ Definition rem_at (st : state) (x i : nat) : res (bool * state) :=
   end.
 Definition clen (c : cont) : nat :=
   match c with CA a => length (aelems a) | CN n => length (citems n) end.
+
+(* the payload an argument denotes (decides whether a hinted MultiMap insert is the case left open) *)
+Definition val (w : world) (i : id) : Z := match lookup i (heap w) with Some v => v | None => 0%Z end.
+Definition rarg_val (w : world) (r : rarg) : Z :=
+  match r with RTmp z => z | RRef i | RCopy i => val w i end.
 
 Definition step (st : state) (o : op) : res (bool * state) :=
   let vs := svars st in
@@ -598,7 +775,12 @@ Definition step (st : state) (o : op) : res (bool * state) :=
           if kind_eqb (kind_of cx) (kind_of cy) && can_addall (kind_of cx) then
             match cx, cy with
             | CA a, CA b => put st x (lift CA (arr_append_arr a (if Nat.eqb x y then None else Some b)))
-            | CN a, CN b => put st x (lift CN (nc_add_all a (addall_p (ckind a) p) (if Nat.eqb x y then None else Some b)))
+            | CN a, CN b =>
+                let o := if Nat.eqb x y then None else Some b in
+                put st x (lift CN (match ckind a with
+                                   | KMap => nc_add_all_map a o
+                                   | _ => nc_add_all a (addall_p (ckind a) p) o
+                                   end))
             | _, _ => skip st
             end
           else skip st
@@ -642,6 +824,81 @@ Definition step (st : state) (o : op) : res (bool * state) :=
                   end
       | None => skip st
       end
+  | ONewCap x k n =>
+      if isdead vs x && has_capctor k then
+        (* HashMap / HashSet / PoolMap (capacity): the number of buckets is not part of this model *)
+        if is_array k then put st x (ret (CA (arr_new_cap n))) else put st x (lift CN (nc_new k))
+      else skip st
+  | OFind x ka =>
+      match getv vs x with
+      | Some (CA a) =>
+          match marg_val vs ka with
+          | Some r => put st x (lift CA (with_arg r (arr_find a)))
+          | None => skip st
+          end
+      | Some (CN n) =>
+          if can_find (ckind n) then
+            match (if has_key (ckind n) then marg_key vs ka else marg_val vs ka) with
+            | Some r => put st x (lift CN (with_arg r (nc_find n)))
+            | None => skip st
+            end
+          else skip st
+      | None => skip st
+      end
+  | OEmplace x args =>
+      match getv vs x with
+      | Some (CN n) =>
+          if can_emplace (ckind n) && (length args <=? 7) then
+            match marg_vals vs args with
+            | Some rs => put st x (lift CN (nc_emplace n rs))
+            | None => skip st
+            end
+          else skip st
+      | _ => skip st
+      end
+  | OAppendVals x zs =>
+      match getv vs x with
+      | Some (CA a) => put st x (lift CA (arr_append_vals a zs))
+      | _ => skip st
+      end
+  | OInsHint x p ka va =>
+      match getv vs x with
+      | Some (CN n) =>
+          if can_hint (ckind n) then
+            match marg_key vs ka, marg_val vs va with
+            | Some rk, Some rv =>
+                if hint_tie (ckind n) (map (val (sw st)) (sel_ids (ckind n) (citems n)))
+                            (pos_idx p (length (citems n))) (rarg_val (sw st) rk)
+                then skip st
+                else put st x (lift CN (with_arg rk (fun kr => with_arg rv (fun vr => nc_insert_hint n p kr vr))))
+            | _, _ => skip st
+            end
+          else skip st
+      | _ => skip st
+      end
+  | OSort x =>
+      match getv vs x with
+      | Some (CN n) => if can_sort (ckind n) then put st x (lift CN (nc_sort n)) else skip st
+      | _ => skip st
+      end
+  end.
+
+(* what find returns in the state st: the index of the first matching element (for the observation
+   line; `step` itself returns no value) *)
+Definition model_found (st : state) (x : nat) (ka : arg) : option nat :=
+  let vs := svars st in
+  match getv vs x with
+  | Some (CA a) =>
+      match marg_val vs ka with
+      | Some r => find_idx (rarg_val (sw st) r) (map (val (sw st)) (aelems a))
+      | None => None
+      end
+  | Some (CN n) =>
+      match (if has_key (ckind n) then marg_key vs ka else marg_val vs ka) with
+      | Some r => find_idx (rarg_val (sw st) r) (map (val (sw st)) (sel_ids (ckind n) (citems n)))
+      | None => None
+      end
+  | None => None
   end.
 
 (* run a history; the first lifetime error ends it *)
@@ -658,7 +915,6 @@ Definition finish (st : state) : res state := run st (del_all (length (svars st)
 (* ---------------------------------------------------------------------------------------- *)
 (* abstraction: what the containers hold                                                      *)
 (* ---------------------------------------------------------------------------------------- *)
-Definition val (w : world) (i : id) : Z := match lookup i (heap w) with Some v => v | None => 0%Z end.
 Definition abs_node (k : kind) (w : world) (n : node) : anode :=
   (if has_key k then Some (val w (nk n)) else None, if has_val k then Some (val w (nv n)) else None).
 Definition abs_cont (w : world) (c : cont) : kind * acont :=
@@ -685,6 +941,7 @@ Definition ledger_step (s : ledger) (e : event) : option ledger :=
   | EDef i => construct i
   | EVal i _ => construct i
   | ECopy i src => if memn src (llive s) then construct i else None
+  | EMake i _ srcs => if forallb (fun x => memn x (llive s)) srcs then construct i else None
   | EAssign d src => if memn src (llive s) && memn d (llive s) then Some s else None
   | EDestroy i => if memn i (llive s) then Some (mkL (lever s) (rmn i (llive s)) (lbever s) (lblive s)) else None
   | EAlloc b => if memn b (lbever s) then None
